@@ -4,7 +4,7 @@ from fractions import Fraction
 import core as C
 import builders as B
 
-DRIVER = os.path.join(C.VERIF, "build", "drivers", "rel", "rat_driver")
+DRIVER = os.path.join(C.BUILD, "drivers", "rel", "rat_driver")
 
 def big(n):
     n = int(n)
